@@ -1,6 +1,7 @@
 package sim
 
 import (
+	"sort"
 	"fmt"
 	"strings"
 
@@ -302,6 +303,42 @@ func (propC06) Run(w *World, st *Stats) *Violation {
 							return viol(rw, "panic", "%s with the library's own fetcher (NewCtxFromVars) panicked: %v\n%s", kind, o.Panic, trimStack(o.Stack))
 						}
 					}
+				}
+				// contexts built too early: before the variables with the largest keys
+				// were registered, or before any was. Variables the context does not
+				// know are an error at most
+				var regd []VarSpec
+				for _, v := range cw.Cfg.Vars {
+					if v.Reg {
+						regd = append(regd, v)
+					}
+				}
+				sort.Slice(regd, func(i, j int) bool { return regd[i].Key < regd[j].Key })
+				if len(regd) > 0 && len(w.Calls) > 0 {
+					for _, keep := range []int{0, len(regd) / 2, len(regd) - 1} {
+						early := cw.Cfg
+						early.Vars = regd[:keep]
+						earlyCC := BuildConfig(&early, &OpHost{Specs: ops}, mask, true)
+						vals := map[string]interface{}{}
+						for _, v := range regd[:keep] {
+							if b, ok := w.Calls[0].Bind[v.Name]; ok && b.T != "nil" {
+								vals[v.Name] = b.Go()
+							}
+						}
+						for _, kind := range c06kinds {
+							env := NewEnv(ops, &Plan{Kind: kind})
+							c.Host.CompileEnv = env
+							o := c.RunCtx(eval.NewCtxFromVars(earlyCC, vals), env, kind)
+							c.Host.CompileEnv = nil
+							st.Evals++
+							if o.Panic != nil {
+								rw := narrowed(cw, &w.Calls[0])
+								rw.Extra = map[string]string{"real": "1"}
+								return viol(rw, "panic", "%s with a context built by NewCtxFromVars when only %d of the %d variables were registered panicked: %v\n%s", kind, keep, len(regd), o.Panic, trimStack(o.Stack))
+							}
+						}
+					}
+					st.Probe("early_context_probes")
 				}
 				st.Probe("real_fetcher_worlds")
 			}
